@@ -81,8 +81,34 @@ print(b)
 `}}
 )
 
+// P4 imports the same files as P3 but uses OTHER functions of them (what one program uses must
+// not leak into the unused-function removal of the next); P5 defines functions with the names P2
+// uses but does not call them.
+var (
+	P4 = Tree{Name: "P4-imports-other-functions", Main: "main.tsh", Files: map[string]string{
+		"main.tsh": `import (
+	"strings"
+	u "lib/util.tsh"
+)
+print(strings.HasPrefix("hello", "he"), u.Unused())
+`,
+		"lib/util.tsh": P3.Files["lib/util.tsh"]}}
+
+	P5 = Tree{Name: "P5-same-names-unused", Main: "main.tsh", Files: map[string]string{"main.tsh": `func sum(xs []int) int {
+	return 0
+}
+func pair(s string) (string, int) {
+	return s, 1
+}
+func only() int {
+	return 42
+}
+print(only())
+`}}
+)
+
 // AlphabetTrees in alphabet order; call index = 2*tree + target.
-var AlphabetTrees = []Tree{P1, P2, P3, Perr}
+var AlphabetTrees = []Tree{P1, P2, P3, Perr, P4, P5}
 
 // Schedule programs: they make the call-graph map that the import merge ranges over non-trivial.
 var (
